@@ -5,6 +5,7 @@ import (
 	"net"
 	"sort"
 	"strings"
+	"sync/atomic"
 	"testing/synctest"
 	"time"
 
@@ -12,6 +13,11 @@ import (
 	"rendsim/shadow/hub"
 	"rendsim/simnet"
 )
+
+// Progress is bumped around every quiescence wait; the worker's watchdog (a goroutine
+// outside the bubble) uses it to notice a run that stopped making kernel steps,
+// e.g. because a rend goroutine spins and never blocks.
+var Progress atomic.Uint64
 
 // Fault is one planned backend fault, addressed by the index of the request (as
 // received by the tier, over all its connections) it applies to.
@@ -207,7 +213,9 @@ func (w *World) Disarm() {
 // Quiesce waits until every rend goroutine is durably blocked and collects
 // what rend wrote to the clients meanwhile.
 func (w *World) Quiesce() {
+	Progress.Add(1)
 	synctest.Wait()
+	Progress.Add(1)
 	w.Steps++
 	if w.Steps > w.MaxSteps {
 		w.Overrun = true
@@ -526,11 +534,10 @@ func (w *World) Teardown() {
 	}
 	synctest.Wait()
 	w.Run.ReleaseAllForTeardown()
-	for _, b := range w.BackendConns() {
-		if !b.Dead {
-			b.kill(false)
-		}
-	}
+	// Backend connections are deliberately left open: a goroutine still blocked
+	// reading from one simply leaks with the bubble (bounded by worker recycling),
+	// whereas an injected EOF at this point would exercise rend's error paths outside
+	// of any oracle.
 	synctest.Wait()
 }
 
@@ -577,4 +584,15 @@ func (w *World) Deliver(c *ClientConn, data []byte) {
 	if len(data) > 0 {
 		c.C.Deliver(data)
 	}
+}
+
+// DialBackend opens a backend connection to the named tier for a handler the
+// harness constructs itself (handler-level simulations).
+func (w *World) DialBackend(tier, owner string) *simnet.Conn {
+	w.accepting = owner
+	c, err := w.dial("unix", w.Tiers[tier].Addr)
+	if err != nil {
+		return nil
+	}
+	return c.(*simnet.Conn)
 }
